@@ -344,7 +344,11 @@ func (r *hdRun) exec(o *hdOp) string {
 		if o.Addr > 0 {
 			addr = fmt.Sprintf("198.51.100.%d", o.Addr%250)
 		}
-		s.connect(o.C, addr)
+		if hc := s.connect(o.C, addr); hc != nil {
+			hc.mu.Lock()
+			hc.autoDialout = true
+			hc.mu.Unlock()
+		}
 		return fmt.Sprintf("OConnect %d %d", o.C, o.Addr)
 	case "hello":
 		if c == nil {
